@@ -323,6 +323,22 @@ def rand_result(r, long_names=False):
     ml = 300 if long_names else 14
     names = {k: rand_name(r, ml, ml - 1 if long_names else 1)
              for k in ('event', 'site', 'west', 'north', 'east', 'south')}
+    if not long_names:
+        u = r.random()
+        if u < 0.15:
+            # the same name at several seats (one program playing both hands of a
+            # side, or all four), the same text as event and site
+            names['south'] = names['north']
+            if r.random() < 0.5:
+                names['west'] = names['east'] = names['north']
+            if r.random() < 0.3:
+                names['site'] = names['event']
+        elif u < 0.3:
+            # values that begin like the format's own marks ('#' and '##' head special
+            # values in import files; a writer writes names verbatim)
+            for k_ in r.sample(sorted(names), r.randrange(1, 4)):
+                names[k_] = r.choice(['##', '#', '##1 (Team #7)', '## Finals', '#1', '?', '-', '%', ';x', '{y}',
+                                      '[Z', 'a]', '!', '$1', '^', '~']) + (rand_name(r, 6) if r.random() < 0.5 else '')
     date = datetime.date(r.randrange(1000, 3000), r.randrange(1, 13), r.randrange(1, 29))
     if r.random() < 0.25:
         # a datetime is a date too (datetime.now() is what a caller has at hand)
